@@ -29,6 +29,11 @@ var convFailDocs = []struct{ name, doc string }{
 	{"badpod", "apiVersion: v1\nkind: Pod\nmetadata: {name: badpod, namespace: ns1}\nspec:\n  containers:\n  - {name: c, image: x, ports: \"80\"}\n"},
 	{"badanp", "apiVersion: policy.networking.k8s.io/v1alpha1\nkind: AdminNetworkPolicy\nmetadata: {name: badanp}\nspec:\n  priority: high\n  subject: {namespaces: {}}\n"},
 	{"badsvc", "apiVersion: v1\nkind: Service\nmetadata: {name: badsvc, namespace: ns1}\nspec:\n  ports: \"80\"\n"},
+	// documents without a usable name (missing, empty, generateName only): the severe entry names kind and namespace, so
+	// the token a severe entry must mention is a namespace string of their own
+	{"nonamedepns", "apiVersion: apps/v1\nkind: Deployment\nmetadata: {namespace: nonamedepns, generateName: gen-}\nspec:\n  replicas: three\n  selector: {matchLabels: {app: zz}}\n  template: {metadata: {labels: {app: zz}}, spec: {containers: [{name: c, image: x}]}}\n"},
+	{"nonamejobns", "apiVersion: batch/v1\nkind: Job\nmetadata: {name: \"\", namespace: nonamejobns}\nspec:\n  parallelism: many\n  template: {metadata: {labels: {app: zz}}, spec: {containers: [{name: c, image: x}]}}\n"},
+	{"nonamenpns", "apiVersion: networking.k8s.io/v1\nkind: NetworkPolicy\nmetadata: {namespace: nonamenpns}\nspec:\n  podSelector: 5\n"},
 }
 
 // syntactically broken files and YAML without kind - always placed as separate files
